@@ -3,6 +3,7 @@ package main
 import (
 	"fmt"
 	"go/ast"
+	"go/token"
 	"go/types"
 	"strings"
 )
@@ -10,7 +11,7 @@ import (
 func init() {
 	register(&propDef{
 		ID:          "C17",
-		Explanation: "Decides, for the language server's document copy (cmd/templ/lspcmd/proxy): R1 in DidChange the call that applies the content changes dominates parsing, generation, the source-map cache update and the forwarded DidChange, and the text parsed is the String() of the document that Apply returned; in DidOpen the document is stored before parsing; R2 in Document.Apply the range is normalised before any classification predicate or line index is evaluated, and the normaliser clamps a position past the last line to the END of the last line (the branch that clamps a line coordinate also sets that position's character); R3 the three edit predicates (insert / delete / overwrite), evaluated exhaustively over the truth assignments of their atoms {end line = start line, end column = start column, text empty}, are pairwise disjoint and cover every state except (empty range, empty text); R4 every satisfying assignment of the whole-document predicate constrains the end line AND the end column of the range (a range whose end line is unconstrained cannot be known to cover the document), besides requiring start 0:0; R5 the document store applies changes under its mutex. R6 a field of Document that memoises a value computed from the text (returned when non-nil, filled otherwise) is reset in every method that writes the fields it was computed from (none exists on the pinned tree; a positive control keeps the detector live). NOT decided: the splice arithmetic of Insert/Delete/Overwrite on concrete texts, UTF-16 column units.",
+		Explanation: "Decides, for the language server's document copy (cmd/templ/lspcmd/proxy): R1 in DidChange the call that applies the content changes dominates parsing, generation, the source-map cache update and the forwarded DidChange, and the text parsed is the String() of the document that Apply returned; in DidOpen the document is stored before parsing; R2 in Document.Apply the range is normalised before any classification predicate or line index is evaluated, and the normaliser clamps a position past the last line to the END of the last line (the branch that clamps a line coordinate also sets that position's character); R3 the three edit predicates (insert / delete / overwrite), evaluated exhaustively over the truth assignments of their atoms {end line = start line, end column = start column, text empty}, are pairwise disjoint and cover every state except (empty range, empty text); R4 every satisfying assignment of the whole-document predicate constrains the end line AND the end column of the range (a range whose end line is unconstrained cannot be known to cover the document), besides requiring start 0:0; R5 the document store applies changes under its mutex. R6 a field of Document that memoises a value computed from the text (returned when non-nil, filled otherwise) is reset in every method that writes the fields it was computed from (none exists on the pinned tree; a positive control keeps the detector live). R7 the transport's async handler releases the next message only from inside the reply wrapper (messages are handled in arrival order, so edits are applied in the order sent). NOT decided: the splice arithmetic of Insert/Delete/Overwrite on concrete texts, UTF-16 column units.",
 		Assumptions: []string{"atoms of the predicates are independent comparisons (truth table over uninterpreted atoms)"},
 		Trusted:     []string{"go/types", "x/tools go/packages, go/cfg"},
 		Run:         runC17,
@@ -18,8 +19,9 @@ func init() {
 }
 
 func runC17(c *Ctx) {
-	c.load("./cmd/templ/lspcmd/proxy")
+	c.load("./cmd/templ/lspcmd/proxy", "./lsp/jsonrpc2")
 	memoInvalidation(c, "C17.R6", "cmd/templ/lspcmd/proxy", "Document")
+	asyncHandlerKeepsOrder(c, "C17.R7")
 	p := c.pkg("cmd/templ/lspcmd/proxy")
 	info := p.TypesInfo
 
@@ -439,4 +441,96 @@ func isRangeMutator(c *Ctx, p interface{}, fn *types.Func) bool {
 		return res
 	}
 	return false
+}
+
+// asyncHandlerKeepsOrder: C17.R7 — edits must be applied in the order the editor sent them. The transport's async
+// handler starts one goroutine per message and chains them: message k+1 waits on a channel that is closed when message
+// k REPLIES (a notification's reply is invoked by the server when its handler has returned). The channel of the next
+// message may therefore only be closed inside the reply wrapper; closing it when the message is merely picked up lets
+// a small didChange overtake a large one that is still being decoded and applied.
+func asyncHandlerKeepsOrder(c *Ctx, rule string) {
+	p := c.pkg("lsp/jsonrpc2")
+	if p == nil {
+		c.viol(rule, "anchor-lost:lsp/jsonrpc2", "", "package lsp/jsonrpc2 not loaded")
+		return
+	}
+	info := p.TypesInfo
+	fd := findFunc(p, "", "AsyncHandler")
+	if fd == nil {
+		c.viol(rule, "anchor-lost:AsyncHandler", "", "jsonrpc2.AsyncHandler (exported) not found")
+		return
+	}
+	// the reply wrapper: a function literal assigned to a variable of the Replier type
+	var wrappers []*ast.FuncLit
+	ast.Inspect(fd.Body, func(x ast.Node) bool {
+		if as, ok := x.(*ast.AssignStmt); ok && len(as.Lhs) == 1 && len(as.Rhs) == 1 {
+			if fl, ok := as.Rhs[0].(*ast.FuncLit); ok {
+				if t := info.TypeOf(as.Lhs[0]); t != nil && strings.HasSuffix(t.String(), ".Replier") {
+					wrappers = append(wrappers, fl)
+				}
+			}
+		}
+		return true
+	})
+	// the per-message handler literal (it contains the go statement)
+	var perMsg *ast.FuncLit
+	ast.Inspect(fd.Body, func(x ast.Node) bool {
+		if fl, ok := x.(*ast.FuncLit); ok && perMsg == nil {
+			hasGo := false
+			ast.Inspect(fl.Body, func(y ast.Node) bool {
+				if _, ok := y.(*ast.GoStmt); ok {
+					hasGo = true
+				}
+				return true
+			})
+			if hasGo {
+				perMsg = fl
+			}
+		}
+		return true
+	})
+	if perMsg == nil || len(wrappers) == 0 {
+		c.viol(rule, funcKey(p, fd)+"|chain-shape", c.pos(fd.Pos()), "AsyncHandler no longer wraps the reply function and starts a goroutine per message: the ordering chain was not found")
+		return
+	}
+	nclose := 0
+	outside := ""
+	ast.Inspect(perMsg.Body, func(x ast.Node) bool {
+		call, ok := x.(*ast.CallExpr)
+		if !ok {
+			return true
+		}
+		id, ok := call.Fun.(*ast.Ident)
+		if !ok || id.Name != "close" || len(call.Args) != 1 {
+			return true
+		}
+		nclose++
+		in := false
+		for _, w := range wrappers {
+			if w.Body.Pos() <= call.Pos() && call.End() <= w.Body.End() {
+				in = true
+			}
+		}
+		if !in {
+			outside = c.pos(call.Pos())
+		}
+		return true
+	})
+	c.check(nclose >= 1 && outside == "", rule, funcKey(p, fd)+"|next-message-released-on-reply-only", c.pos(fd.Pos()), fmt.Sprintf("%d close(…) of the next message's gate, all inside the reply wrapper", nclose),
+		"AsyncHandler opens the gate of the next message at "+outside+", outside the reply wrapper (i.e. before the current message's handler has finished): a later, small textDocument/didChange can be applied before an earlier, large one — the earlier one then overwrites it and the server's copy of the document loses the later edit")
+	// and the goroutine waits for the previous message before calling the handler
+	waits := false
+	ast.Inspect(perMsg.Body, func(x ast.Node) bool {
+		if gs, ok := x.(*ast.GoStmt); ok {
+			if fl, ok := gs.Call.Fun.(*ast.FuncLit); ok && len(fl.Body.List) >= 2 {
+				if es, ok := fl.Body.List[0].(*ast.ExprStmt); ok {
+					if ue, ok := es.X.(*ast.UnaryExpr); ok && ue.Op == token.ARROW {
+						waits = true
+					}
+				}
+			}
+		}
+		return true
+	})
+	c.check(waits, rule, funcKey(p, fd)+"|waits-for-previous-message", c.pos(fd.Pos()), "the goroutine first receives from the previous message's gate", "the per-message goroutine no longer waits for the previous message before handling its own")
 }
